@@ -891,9 +891,21 @@ def rule_r10(ctx, cg: CallGraph) -> RuleResult:
     return rr
 
 
+def rule_r11(ctx) -> RuleResult:
+    """`_lua_invoke` takes a non-empty environment stack for `this is a nested invocation`: it then neither resets the sandbox
+    environment nor reloads modules.  An entry left behind by a failed invocation therefore makes every later invocation of the
+    page inherit the modules' state (seed C09-10A).  Shared with part (a) of C07.R10."""
+    from ..core.report import shared
+    from . import c07
+
+    return shared(c07.stack_cutback(ctx), "C09.R11", "the Lua stacks are back at their entry length after every invocation (shared with C07.R10a)",
+                  "every later #invoke on the page is taken for a nested one: the environment is not reset and `package.loaded` is reused, "
+                  "so module-level state of one invocation is visible in the next", min_instances=2)
+
+
 def run(ctx) -> list:
     cg = CallGraph(ctx.index)
-    results = [rule_r1(ctx, cg), rule_r2(ctx), rule_r3(ctx), rule_r4(ctx), rule_r5(ctx), rule_r6(ctx), rule_r7(ctx), rule_r8(ctx), rule_r9(ctx), rule_r10(ctx, cg)]
+    results = [rule_r1(ctx, cg), rule_r2(ctx), rule_r3(ctx), rule_r4(ctx), rule_r5(ctx), rule_r6(ctx), rule_r7(ctx), rule_r8(ctx), rule_r9(ctx), rule_r10(ctx, cg), rule_r11(ctx)]
     if ctx.thorough:
         from ..core.cgcheck import crosscheck
 
